@@ -76,6 +76,27 @@ UNKNOWN_NAMES = ["zz_unknown_tool", "\"zz_unknown_tool\"", "zz_unknown\\_tool", 
 UNKNOWN_ARGS = [["--force"], [], ["x", "y"], ["-rf", "x"], ["run", "--prod"], ["ls"], ["cat", "f"], ["echo", "hi"]]
 
 
+HELPISH = ["help", "version", "--help", "--version", "-h", "-help", "-version", "---help", "--h", "-v", "-V", "HELP", "--Help", "-?", "h", "--help=x", "-hh", "helper", "-H"]
+FILLERS = [[], ["-rf"], ["deploy"], ["-rf", "x"], ["make", "install"], ["a", "b", "c"], ["a", "b", "c", "d"]]
+
+
+def documented_help_shape(words) -> bool:
+    """the property's sole exception, restated: `cmd help|version|--version|--help|-h`, or at most four words ending in --help / -h"""
+    if len(words) == 2 and words[1] in ("help", "version", "--version", "--help", "-h"):
+        return True
+    return len(words) <= 4 and len(words) >= 2 and words[-1] in ("--help", "-h")
+
+
+def help_shape_args():
+    """argument lists with a help-looking word at the end or in the middle that are NOT the documented help shape"""
+    for fill in FILLERS:
+        for hw in HELPISH:
+            for args in (fill + [hw], [hw] + fill if fill else None):
+                if args is None or documented_help_shape(["zz"] + args):
+                    continue
+                yield args
+
+
 def unknown_matrix():
     """an unknown program in every command position x spellings of its name x argument lists (never a help request):
     deterministic, exercised on every run"""
@@ -86,6 +107,11 @@ def unknown_matrix():
                 if "'" in pos.replace("@", "") and "'" in cmd:
                     continue  # would need nested single quotes
                 yield pos.replace("@", cmd)
+    # help-looking words outside the documented help shape: a plain position, two more, every name spelling once
+    for pos in ("@", "true && @", "timeout 5 @"):
+        for name in ("zz_unknown_tool", "./zz_unknown_tool", "rmm"):
+            for args in help_shape_args():
+                yield pos.replace("@", " ".join([name] + args))
 
 
 def correspondence(ctx):
